@@ -1,6 +1,7 @@
 mod c01;
 mod c02;
 mod c06;
+mod c07;
 mod eng;
 mod gen;
 mod mdoc;
@@ -55,6 +56,7 @@ fn main() {
         "C01" => c01::run(tier),
         "C02" => c02::run(tier),
         "C06" => c06::run(tier),
+        "C07" => c07::run(tier),
         x => {
             eprintln!("unknown check {}", x);
             2
